@@ -1,5 +1,5 @@
 CONSTANTS
-  Mutant = "no_304_body"
+  Mutant = "none"
   MaxLen = 2
   Family = "endtab"
   Deep = FALSE
@@ -10,3 +10,10 @@ INVARIANT Transparency
 INVARIANT WarnedWhenBroken
 INVARIANT SilentWhenCompliant
 INVARIANT SentMatches
+PROPERTY ServerSideAppendOnly
+PROPERTY ClosedForGood
+PROPERTY HeadersSetForGood
+PROPERTY WarningsAppendOnly
+PROPERTY Terminates
+PROPERTY CloseReaches
+PROPERTY UnclosedReported
